@@ -76,9 +76,29 @@ def gen_line(rng, n_prog, per_prog, exhaustive=False):
     return out
 
 
+SYSTEMATIC = [
+    {"kind": "line", "q": None, "collects": [[1, 5], [2, 6]], "consumer": [["update"], ["update"], ["get"], ["count", 0]]},
+    {"kind": "line", "q": 2, "collects": [[1, 5], [2, 5], [3, 7]], "consumer": [["update"], ["save"], ["update"]]},
+]
+
+
+def systematic_line_cases():
+    """the consumer goes first (an early switch away from the collector), then every later preemption point: this puts a
+    collect at every point of a hand-over, in particular right after the lock has been released"""
+    out = []
+    for n, prog in enumerate(SYSTEMATIC):
+        horizon = 30 + 22 * (len(prog["collects"]) + len(prog["consumer"]))
+        # the first switch: anywhere in the collector's first collect(s) for the first program, early for the others
+        for a in range(0, 26 if n == 0 else 4):
+            for b in range(a + 1, horizon):
+                out.append(dict(prog, preempt=[a, b]))
+    return out
+
+
 def gen(rng, tier):
     n = {"quick": 2000, "thorough": 40000, "search": 6000}[tier]
     cases = [gen_pipe(rng) if rng.random() < 0.9 else gen_acq(rng) for _ in range(n)]
+    cases += systematic_line_cases()
     if tier == "quick":
         cases += gen_line(rng, 40, 12)
     elif tier == "search":
